@@ -18,7 +18,7 @@
 From Coq Require Import Strings.String Strings.Ascii.
 From RipV Require Import Base.Prelude Base.Json Model.ToolLoop Proofs.ToolLoopProofs.
 From RipV Require Import Base.Utf8 Model.ToolLoopSse Proofs.ToolLoopSseProofs.
-From RipV Require Model.Sse Model.SseJson.
+From RipV Require Model.Sse Model.SseJson Proofs.SseProofs.
 From Coq Require Import Permutation Sorted.
 
 (* ---- a tool excluded by the configured tool choice is never executed ---- *)
@@ -383,6 +383,26 @@ Theorem c16_finish_not_observed_refuted :
     length (res_iters (run_b A OBS_PUSH_ONLY g valid tool prompt init bodies)) = 1%nat.
 Proof. exact finish_not_observed_refuted. Qed.
 Print Assumptions c16_finish_not_observed_refuted.
+
+(* ---- which unterminated tails pipe.finish() dispatches, in general (text = the lossy UTF-8 decoding of the body;
+   Sse.events_spec = C15's chunking-free specification, the right-hand side of c16_collector_sees_the_body_events) ---- *)
+(* after a complete line, a tail of one or more CRs is the blank line: the event before it IS emitted — the CRLF body
+   cut between the CR and the LF of its final blank line (SEED C16-4), also `...\n\r` *)
+Theorem c16_cr_tail_is_dispatched :
+  forall (classify : option str -> str -> Sse.cls) (t : str) (n : nat),
+  Sse.events_spec classify (t ++ Sse.NL :: repeat 13 (S n)) = Sse.events_spec classify (t ++ [Sse.NL; Sse.NL]).
+Proof. exact cr_tail_is_blank_line. Qed.
+Print Assumptions c16_cr_tail_is_dispatched.
+
+(* after a complete line, any other unterminated tail (a line that is not blank once its trailing CRs are trimmed:
+   a data / event / comment line without line end, and — taking t's last line as that data line — the LF body that
+   misses its final blank line) dispatches nothing: that call was never emitted, there is nothing to answer *)
+Theorem c16_nonblank_tail_is_not_dispatched :
+  forall (classify : option str -> str -> Sse.cls) (t l : str),
+  SseProofs.no_nl l -> Sse.trim_end_cr l <> [] ->
+  Sse.events_spec classify (t ++ Sse.NL :: l) = Sse.events_spec classify (t ++ [Sse.NL]).
+Proof. exact nonblank_tail_not_dispatched. Qed.
+Print Assumptions c16_nonblank_tail_is_not_dispatched.
 
 (* ---- which tails carry a call (the hypotheses above are satisfiable) ---- *)
 (* `...}\r\n\r`, no [DONE]: the last event is handed out by finish(); it is frame 1 and the call is drained *)
